@@ -29,11 +29,13 @@ INFO = dict(
     rule="a case = one history (2-10 applies with reuse / in-place edits / near-equal inputs) or one (points, batch "
          "size, in/out-of-domain mask) triple on one transform class; distinct = distinct (class, history/mask/batch "
          "size); non-trivial = at least two applies or a batch size that is not 1, n or None",
-    partial=["statelessness of the non-caching transform classes is not a theorem (their _apply has no state in the "
-             "model by construction); it is decided by the fresh-transform oracle on every class"],
+    partial=["statelessness of the non-caching transform classes: `pure_of_no_writes` (no attribute write => history "
+             "independent) is a theorem and the frame hypothesis is the regenerated obligation `applyWrites_ok` (measured "
+             "on live objects of every class each run); that a class's _apply reads nothing but its attributes and "
+             "its argument (no module-level state) is decided by the fresh-transform oracle only"],
     assumptions=["numpy computations on equal values and equal shapes are deterministic to 1e-10"],
     design_ref="DESIGN.md section 6, C09")
-IMPORTS = ["MenpoModel.Props.C09"]
+IMPORTS = ["MenpoModel.Props.C09", "MenpoModel.GenProps.C09"]
 THEOREMS = [
     "MenpoModel.C09.batched_eq_unbatched_hom",
     "MenpoModel.C09.batched_eq_unbatched",
@@ -44,6 +46,9 @@ THEOREMS = [
     "MenpoModel.C09.fresh_memoOk",
     "MenpoModel.C09.apply_pure_coded_refuted_aliasing",
     "MenpoModel.C09.apply_pure_coded_refuted_tolerance",
+    "MenpoModel.C09.pure_of_no_writes",
+    "MenpoModel.C09.pure_of_no_writes_interleaved",
+    "MenpoModel.GenProps.C09.applyWrites_ok",
 ]
 
 TOL = 1e-9
@@ -360,6 +365,79 @@ def explore(ctx, n_hist, n_batch, n_bimg, lines, pending):
         boolean_image_case(ctx, rng)
 
 
+# ------------------------------------------------------------------------------- regenerated write table
+
+def _deep(o, seen=None, depth=0):
+    """deep content digest of an attribute value (arrays by bytes, menpo objects by their attributes)"""
+    import numpy as np
+    seen = seen if seen is not None else set()
+    if isinstance(o, np.ndarray):
+        return ("nd", o.dtype.str, o.shape, o.tobytes())
+    if isinstance(o, (list, tuple)):
+        return (type(o).__name__,) + tuple(_deep(x, seen, depth + 1) for x in o)
+    if isinstance(o, dict):
+        return ("dict",) + tuple((repr(k), _deep(v, seen, depth + 1)) for k, v in o.items())
+    if hasattr(o, "__dict__") and not callable(o) and depth < 6:
+        if id(o) in seen:
+            return ("cycle",)
+        seen.add(id(o))
+        return (type(o).__name__,) + tuple((k, _deep(v, seen, depth + 1)) for k, v in sorted(vars(o).items()))
+    if hasattr(o, "toarray"):
+        return ("sparse", o.shape, o.toarray().tobytes())
+    return ("atom", repr(o) if not callable(o) else "callable")
+
+
+def attr_writes(obj, action):
+    """names of the instance attributes of `obj` that `action()` rebinds, adds, removes or modifies in place"""
+    before = {k: (id(v), _deep(v)) for k, v in vars(obj).items()}
+    try:
+        action()
+    except Exception:      # noqa: BLE001 - a failing application may still have written state
+        pass
+    after = {k: (id(v), _deep(v)) for k, v in vars(obj).items()}
+    return sorted(k for k in set(before) | set(after) if before.get(k) != after.get(k))
+
+
+def write_table(seed=0):
+    """class name -> attributes written by apply(), measured on live objects (arrays, shapes, batches, failures)"""
+    import numpy as np
+    from menpo.shape import PointCloud
+    rng = common.random.Random(12345 + seed)
+    table = {}
+    for name, make, ndims, domain in zoo(rng):
+        t = make()
+        cls = type(t).__name__
+        w = set(table.get(cls, ()))
+        x1, _ = gen_points(rng, 5, ndims, domain, 0.0)
+        x2, _ = gen_points(rng, 4, ndims, domain, 0.0)
+        acts = [lambda: t.apply(x1), lambda: t.apply(x2.copy()), lambda: t.apply(PointCloud(x1.copy())),
+                lambda: t.apply(x1, batch_size=2), lambda: t.apply(x1)]
+        if domain != "all":
+            xo, _ = gen_points(rng, 4, ndims, domain, 0.6)
+            xo[0] = outside_point(rng)
+            acts.append(lambda: t.apply(xo))
+        for a in acts:
+            w.update(attr_writes(t, a))
+        table[cls] = sorted(w)
+    return table
+
+
+def generated(ctx):
+    table = write_table()
+    body = ",\n   ".join('("%s", [%s])' % (c, ", ".join('"%s"' % a for a in table[c])) for c in sorted(table))
+    gen = ("/- REGENERATED by harness/c09.py from the live menpo classes on every run: for every transform class, the\n"
+           "   instance attributes that apply() rebinds, adds or modifies in place.  Do not edit. -/\n"
+           "import MenpoModel.Core.C09\n\nnamespace MenpoModel.Generated.C09\nopen MenpoModel.C09\n\n"
+           "def applyWrites : WriteTable :=\n  [%s]\n\nend MenpoModel.Generated.C09\n" % body)
+    ctx.notes["apply_write_table"] = table
+    ok = common.build_generated(ctx, {"MenpoModel/Generated/C09Writes.lean": gen},
+                                ["MenpoModel.Generated.C09Writes", "MenpoModel.GenProps.C09"], 1)
+    if not ok and ctx.broken_obligations:
+        ctx.broken_obligations[-1]["obligation"] = "MenpoModel.GenProps.C09.applyWrites_ok"
+        ctx.broken_obligations[-1]["observed_attribute_writes_of_apply"] = {c: a for c, a in table.items() if a}
+        ctx.broken_obligations[-1]["expected"] = {"CachedPWA": ["_applied_points", "_iab"], "every other class": []}
+
+
 def search(ctx):
     lines, pending = [], {}
     before = ctx.evaluations
@@ -369,7 +447,14 @@ def search(ctx):
 
 
 def run(ctx):
-    common.prepare_lean(ctx, PROP, IMPORTS, THEOREMS)
+    generated(ctx)
+    if ctx.broken_obligations:
+        # the model's assumption about which classes keep state no longer matches the live code: audit what still
+        # builds, then let the oracle search for a history on which the new state shows
+        common.prepare_lean(ctx, PROP, IMPORTS[:1], THEOREMS[:-1])
+    else:
+        common.prepare_lean(ctx, PROP, IMPORTS, THEOREMS, targets=["MenpoModel.Props.C09", "MenpoModel.Drive.C09",
+                                                                   "MenpoModel.GenProps.C09"])
     lines, pending = [], {}
     explore(ctx, ctx.n(160, 2400), ctx.n(80, 1000), ctx.n(6, 60), lines, pending)
     if lines:
